@@ -165,7 +165,57 @@ def st_config(work):
             e["cur"] = "default"
             break
     a2, r2 = P.validate(bad, [None] * len(bad), work, "st_bad")
-    return _verdict("QtlConfig", not rej, [("handler reported after one install changed", bool(r2))])
+    bad2 = copy.deepcopy(evs)
+    for e in bad2:
+        if e["e"] == "Op" and e["op"] == "log" and e.get("rcv") in ("a", "b"):
+            e["rcv"] = "b" if e["rcv"] == "a" else "a"          # the other logger object got the message
+            break
+    a3, r3 = P.validate(bad2, [None] * len(bad2), work, "st_bad2")
+    return _verdict("QtlConfig", not rej, [("handler reported after one install changed", bool(r2)),
+                                           ("a message received by the other logger object", bool(r3))])
+
+
+def st_signal(work):
+    from . import signal_spec as S
+    bdir = C.ensure_harness("asan", ["drv_signal"])
+
+    class Keep:
+        runs = None
+    orig = C.validate_runs
+
+    def spy(spec, cfg, runs, w, tag, **kw):
+        Keep.runs = runs
+        return orig(spec, cfg, runs, w, tag, **kw)
+    C.validate_runs = spy
+    try:
+        acc, rej, info = S.campaign(bdir, random.Random(9), 12, work / "sig")
+    finally:
+        C.validate_runs = orig
+    runs = Keep.runs
+    bad = copy.deepcopy(runs)
+    done = False
+    for r in bad:
+        for e in r:
+            if e["e"] == "Slot" and e["m"]["file"]:
+                e["m"]["file"] = e["m"]["file"][:-1] + [35]            # the copy's file name ends in '#'
+                done = True
+                break
+        if done:
+            break
+    _, r2 = orig("Trace_Signal", "Trace_Signal.cfg", bad, work / "sig", "st_bad", chunk=60, timeout=600)
+    bad2 = copy.deepcopy(runs)
+    done = False
+    for r in bad2:
+        for e in r:
+            if e["e"] == "Slot" and e["m"]["src"] != "M":
+                e["t"] = e["m"]["src"]                                   # the slot ran on the emitting thread
+                done = True
+                break
+        if done:
+            break
+    _, r3 = orig("Trace_Signal", "Trace_Signal.cfg", bad2, work / "sig", "st_bad2", chunk=60, timeout=600)
+    return _verdict("QtlSignal", not rej, [("one field of a slot's copy changed", bool(r2)),
+                                           ("a slot invoked on the emitting thread", bool(r3))])
 
 
 def run(argv):
@@ -173,7 +223,7 @@ def run(argv):
     work.mkdir(parents=True, exist_ok=True)
     ok = True
     try:
-        for fn in (st_sorted, st_pipeline, st_rotation, st_threads, st_pattern, st_json, st_config):
+        for fn in (st_sorted, st_pipeline, st_rotation, st_threads, st_pattern, st_json, st_config, st_signal):
             ok = fn(work) and ok
     except C.ToolFailure as e:
         print("SELFTEST TOOL FAILURE:", e, file=sys.stderr)
